@@ -16,7 +16,7 @@ RealDiffs == {"byte-first", "byte-last", "byte-at-32k", "longer", "shorter", "mi
 Harmless  == {"none", "extra-excluded-file", "extra-excluded-dir"}
 Dims == [src : {"osdir", "fat32", "ext4", "iso", "squashfs", "shortreads"},
          dst : {"fat12", "fat16", "fat32", "ext4"},
-         tree : {"small", "buffers", "nested", "excluded"},
+         tree : {"small", "buffers", "nested", "excluded", "nearmiss"},      \* nearmiss: names that resemble the excluded ones (other case, a suffix) and are NOT excluded
          mut : RealDiffs \cup Harmless]
 Base == [src |-> "osdir", dst |-> "fat32", tree |-> "buffers", mut |-> "none"]
 Deviations(t) == Cardinality({f \in DOMAIN Base : t[f] # Base[f]})
